@@ -516,35 +516,35 @@ func weightSource(v ssa.Value) ssa.Value {
 func domDeleteMatch(r *engine.Run, rule string) {
 	n := 0
 	for _, w := range walks(r, rule, "delete") {
-	o := ord{}
-	for _, ret := range engine.Returns(w.f) {
-		if len(ret.Results) != 3 || !nilConst(ret.Results[1]) || !nilConst(ret.Results[2]) {
-			continue
-		}
-		n++
-		cons := o.next(fn(w.f) + "|removal")
-		pos := r.P.Pos(ret.Pos())
-		src := weightSource(ret.Results[0])
-		switch {
-		case src != nil && isNamedPtr(src.Type(), "valueNode"):
-			r.OK(rule, cons, pos, "a value node is removed where the key is used up (its arm) and its own weight is reported")
-		case src != nil && isNamedPtr(src.Type(), "shortNode"):
-			ps := w.prefixCalls(src)
-			whole := w.wholeKeyMatched(ret.Block(), src, ps)
-			all := false
-			if facts, ok := engine.FactsOn(w.f, ret.Block()); ok {
-				for _, ft := range facts {
-					if ft.Kind == "eq" && ft.Truth && (oneOf(ft.A, ps) && isLenOf(ft.B, w.key) || oneOf(ft.B, ps) && isLenOf(ft.A, w.key)) {
-						all = true
+		o := ord{}
+		for _, ret := range engine.Returns(w.f) {
+			if len(ret.Results) != 3 || !nilConst(ret.Results[1]) || !nilConst(ret.Results[2]) {
+				continue
+			}
+			n++
+			cons := o.next(fn(w.f) + "|removal")
+			pos := r.P.Pos(ret.Pos())
+			src := weightSource(ret.Results[0])
+			switch {
+			case src != nil && isNamedPtr(src.Type(), "valueNode"):
+				r.OK(rule, cons, pos, "a value node is removed where the key is used up (its arm) and its own weight is reported")
+			case src != nil && isNamedPtr(src.Type(), "shortNode"):
+				ps := w.prefixCalls(src)
+				whole := w.wholeKeyMatched(ret.Block(), src, ps)
+				all := false
+				if facts, ok := engine.FactsOn(w.f, ret.Block()); ok {
+					for _, ft := range facts {
+						if ft.Kind == "eq" && ft.Truth && (oneOf(ft.A, ps) && isLenOf(ft.B, w.key) || oneOf(ft.B, ps) && isLenOf(ft.A, w.key)) {
+							all = true
+						}
 					}
 				}
+				r.Check(whole && all, rule, cons, pos, "the shared-prefix node is removed only where the common prefix equals both len(node key) and len(key)",
+					fmt.Sprintf("delete removes a shared-prefix node with its whole subtree and reports its weight on a path where the walked key was not established to equal the node's key (prefix covers node key: %v, prefix covers walked key: %v): deleting one key removes other keys, or a key that is absent removes a present one", whole, all))
+			default:
+				r.Fail(rule, cons, pos, "delete reports a removal (nil node, nil error) whose weight is not the weight of the value node or shared-prefix node at the position")
 			}
-			r.Check(whole && all, rule, cons, pos, "the shared-prefix node is removed only where the common prefix equals both len(node key) and len(key)",
-				fmt.Sprintf("delete removes a shared-prefix node with its whole subtree and reports its weight on a path where the walked key was not established to equal the node's key (prefix covers node key: %v, prefix covers walked key: %v): deleting one key removes other keys, or a key that is absent removes a present one", whole, all))
-		default:
-			r.Fail(rule, cons, pos, "delete reports a removal (nil node, nil error) whose weight is not the weight of the value node or shared-prefix node at the position")
 		}
-	}
 	}
 	if n < 2 {
 		r.Anchor(rule, fmt.Errorf("unresolved anchor: only %d removal returns found in delete", n))
@@ -563,35 +563,35 @@ func agreeSplitPair(r *engine.Run, rule string) {
 	}
 	old, neu := 0, 0
 	for _, w := range ws {
-	o := ord{}
-	for _, c := range w.calls {
-		if !nilConst(c.Call.Args[w.iNode]) {
-			continue
+		o := ord{}
+		for _, c := range w.calls {
+			if !nilConst(c.Call.Args[w.iNode]) {
+				continue
+			}
+			cons := o.next(fn(w.f) + "|split child")
+			pos := r.P.Pos(c.Pos())
+			sl, ok := c.Call.Args[w.iKey].(*ssa.Slice)
+			if !ok {
+				r.Fail(rule, cons, pos, "a child of the new branch is built for a key that is not a remainder of one of the two keys being split")
+				continue
+			}
+			varg := c.Call.Args[w.iVal]
+			if sl.X == w.key {
+				neu++
+				r.Check(varg == w.value, rule, cons, pos, "the walked key's remainder is paired with the new payload",
+					"the child built for the remainder of the walked key does not carry the payload being inserted")
+				continue
+			}
+			if nb, fld, ok := loadOfField(sl.X); ok && isNamedPtr(nb.Type(), "shortNode") {
+				_ = fld
+				old++
+				vb, vf, ok := loadOfField(varg)
+				r.Check(ok && vb == nb && isNodeIfaceW(varg.Type()) && vf != "", rule, cons, pos, "the existing node's key remainder is paired with the existing node's value",
+					"the child built for the remainder of the existing shared-prefix key does not carry that node's own subtree: the split files the new payload (or nothing) under the old key, so the old entry is lost or duplicated")
+				continue
+			}
+			r.Fail(rule, cons, pos, "a child of the new branch is built for a key that is neither the walked key nor the existing node's key")
 		}
-		cons := o.next(fn(w.f) + "|split child")
-		pos := r.P.Pos(c.Pos())
-		sl, ok := c.Call.Args[w.iKey].(*ssa.Slice)
-		if !ok {
-			r.Fail(rule, cons, pos, "a child of the new branch is built for a key that is not a remainder of one of the two keys being split")
-			continue
-		}
-		varg := c.Call.Args[w.iVal]
-		if sl.X == w.key {
-			neu++
-			r.Check(varg == w.value, rule, cons, pos, "the walked key's remainder is paired with the new payload",
-				"the child built for the remainder of the walked key does not carry the payload being inserted")
-			continue
-		}
-		if nb, fld, ok := loadOfField(sl.X); ok && isNamedPtr(nb.Type(), "shortNode") {
-			_ = fld
-			old++
-			vb, vf, ok := loadOfField(varg)
-			r.Check(ok && vb == nb && isNodeIfaceW(varg.Type()) && vf != "", rule, cons, pos, "the existing node's key remainder is paired with the existing node's value",
-				"the child built for the remainder of the existing shared-prefix key does not carry that node's own subtree: the split files the new payload (or nothing) under the old key, so the old entry is lost or duplicated")
-			continue
-		}
-		r.Fail(rule, cons, pos, "a child of the new branch is built for a key that is neither the walked key nor the existing node's key")
-	}
 	}
 	if old < 1 || neu < 1 {
 		r.Anchor(rule, fmt.Errorf("unresolved anchor: split of a shared-prefix node in insert (children for the old key: %d, for the new key: %d)", old, neu))
@@ -1360,6 +1360,15 @@ func agreeSlotPos(r *engine.Run, rule string) {
 						continue
 					}
 					eq, ok := ft.A.(*ssa.Call)
+					if ok && extCalleeIs(eq, "bytes", "", "HasPrefix") && len(eq.Call.Args) == 2 {
+						// bytes.HasPrefix(key[pos:], node key)
+						kb, _, okk := loadOfField(eq.Call.Args[1])
+						sl, oks := eq.Call.Args[0].(*ssa.Slice)
+						if okk && kb == nb && oks && sl.X == w.key && sl.Low == pos && sl.High == nil {
+							matched = true
+						}
+						continue
+					}
 					if !ok || !isBytesEq(eq) || len(eq.Call.Args) != 2 {
 						continue
 					}
